@@ -16,7 +16,7 @@ import numpy as np
 
 from . import common as C
 from . import gen as G
-from .c05 import exact_dm, gen_freqs, ftoks
+from .c05 import exact_dm, gen_freqs, ftoks, f0_product_underflows
 
 PROP = "C02"
 MODULE = "MCHap.Properties.C02"
@@ -43,10 +43,17 @@ RULE = ("cases: random known-haplotype sets (1..6 haplotypes over 1..4 SNVs, sha
 INBREEDING = [0.0, 0.01, 0.25, 0.5, 0.9]
 
 
-def gen_call_instance(r, max_haps=6, pooled=False):
+def gen_call_instance(r, max_haps=6, pooled=False, panel=False, styles=("encoded", "encoded", "free", "hard"), max_reads=6, max_count=3):
+    """pooled: 16-40 copies spread over 5-8 haplotypes; panel: 40-300 known haplotypes over 5-8 SNVs at ploidy 2-4"""
     n_base = r.randint(1, 4) if not pooled else r.randint(3, 4)
+    if panel:
+        n_base = r.randint(5, 8)
     n_alleles = G.gen_n_alleles(r, n_base)
+    if panel:
+        n_alleles = [r.choice([2, 3, 4]) for _ in range(n_base)]       # >= 2^5 .. 4^8 possible haplotypes
     n_haps = r.randint(1, max_haps) if not pooled else r.randint(5, 8)
+    if panel:
+        n_haps = min(r.choice([40, 70, 130, 257, 300, 300]), int(np.prod(n_alleles)) - 1)
     seen, haps = set(), []
     for _ in range(n_haps * 4):
         h = tuple(G.gen_haplotype(r, n_alleles))
@@ -56,6 +63,8 @@ def gen_call_instance(r, max_haps=6, pooled=False):
             break
     n = len(haps)
     ploidy = r.choice([1, 2, 2, 3, 4, 4, 6]) if not pooled else r.choice([16, 21, 24, 30, 32, 40])
+    if panel:
+        ploidy = r.choice([2, 3, 4])
     kind, freqs = gen_freqs(r, n)
     F = r.choice(INBREEDING) if not pooled else r.choice([0.0, 0.0, 0.1])
     allowed = [a for a in range(n) if freqs is None or freqs[a] > 0]
@@ -67,8 +76,8 @@ def gen_call_instance(r, max_haps=6, pooled=False):
         alleles = [allowed[i % len(allowed)] for i in range(ploidy)]
         r.shuffle(alleles)
     truth = [haps[a] for a in alleles]
-    reads, counts = G.gen_reads(r, n_alleles, r.randint(0, 6), haps=truth if r.random() < 0.8 else None,
-                                gap=r.choice([0.0, 0.25]), style=r.choice(["encoded", "encoded", "free"]))
+    reads, counts = G.gen_reads(r, n_alleles, r.randint(0, max_reads), haps=truth if r.random() < 0.8 else None,
+                                gap=r.choice([0.0, 0.25]), style=r.choice(list(styles)), max_count=max_count)
     if len(counts) == 0:
         reads = np.full((1, n_base, max(n_alleles)), np.nan); counts = np.array([1], dtype=np.int64)
     return n_alleles, haps, ploidy, kind, freqs, F, alleles, reads, counts
@@ -101,103 +110,158 @@ def run(tier, replay=None):
     chk.prove()
     drv = C.Driver()
     r = C.rng(PROP)
+    import time
+    t_sec = [time.time()]
+
+    def lap(name):
+        chk.extra.setdefault("section_seconds", {})[name] = round(time.time() - t_sec[0], 1)
+        t_sec[0] = time.time()
     n_cases = {"warm": 3, "quick": 220, "thorough": 2500}[tier]
+    n_panel = {"warm": 1, "quick": 8, "thorough": 80}[tier]
+    GDT = [np.int64, np.int64, np.int32, np.int32, np.int16]
 
     insts, lines, meta = [], [], []
-    for i in range(n_cases):
-        inst = gen_call_instance(r, max_haps=8, pooled=True) if i % 15 == 7 else gen_call_instance(r)
+    for i in range(n_cases + n_panel):
+        if i >= n_cases:
+            inst = gen_call_instance(r, panel=True)
+        elif i % 15 == 7:
+            inst = gen_call_instance(r, max_haps=8, pooled=True)
+        else:
+            inst = gen_call_instance(r)
         n_alleles, haps, ploidy, kind, freqs, F, alleles, reads, counts = inst
+        dt, origin = r.choice(GDT), "generated"
+        if i % 4 == 1 and len(haps) >= 2:
+            # the state the sampler really starts from: greedy_caller's own output (its dtype, its order)
+            try:
+                g0 = mcmc.greedy_caller(np.array(haps, dtype=np.int8), ploidy, reads, counts, F, freqs)
+                if (g0 >= 0).all() and (freqs is None or all(freqs[a] > 0 for a in g0)):
+                    alleles, dt, origin = [int(a) for a in g0], g0.dtype.type, "greedy_caller"
+                else:
+                    chk.count("greedy_caller:no-call(-1 alleles: every haplotype has zero likelihood; observation)")
+            except Exception as e:   # noqa: BLE001
+                chk.violation(f"greedy_caller raises on a valid input: {type(e).__name__}: {e}",
+                              {"haplotypes": haps, "ploidy": ploidy, "inbreeding": F}, "C02/greedy/raises")
+        inst = (n_alleles, haps, ploidy, kind, freqs, F, alleles, reads, counts)
         toks = call_tokens(reads, counts, haps, F, freqs)
-        for k in (range(ploidy) if ploidy <= 8 else sorted(r.sample(range(ploidy), 2))):
+        for k in (range(ploidy) if ploidy <= 8 and i < n_cases else sorted(r.sample(range(ploidy), 2))):
             for op in ("call.gibbs", "call.mh"):
                 lines.append(" ".join([op] + toks + [str(k)] + [str(a) for a in alleles]))
-                meta.append((i, k, op))
+                meta.append((i, k, op, dt, origin))
         insts.append(inst)
     ans = drv.ask(lines)
 
     exact_cache = {}
-    for (i, k, op), a, line in zip(meta, ans, lines):
+    for (i, k, op, dt, origin), a, line in zip(meta, ans, lines):
         n_alleles, haps, ploidy, kind, freqs, F, alleles, reads, counts = insts[i]
         n = len(haps)
         harr = np.array(haps, dtype=np.int8)
         model = [float(C.parse_rat(x)) for x in a.split()]
         fn = mcmc.gibbs_options if op == "call.gibbs" else mcmc.mh_options
-        vecs = {}
-        for name, f in (("jit", fn), ("py", fn.py_func)):
-            g = np.array(alleles, dtype=np.int64)
-            llks = np.full(n, np.nan); lpriors = np.full(n, np.nan); probs = np.full(n, np.nan)
-            f(g, k, harr, reads, counts, F, llks, lpriors, probs, frequencies=freqs, llk_cache=None)
-            vecs[name] = probs.tolist()
-            if g.tolist() != alleles:
-                chk.violation(f"{op} does not restore the current allele", {"alleles": alleles, "after": g.tolist()}, "C02/options/restore")
-        nontriv = n >= 2 and (len(set(alleles)) < len(alleles) or kind in ("skew", "zeros"))
+        nontriv = n >= 2 and (len(set(alleles)) < len(alleles) or kind in ("skew", "zeros", "tiny"))
+        shape = "panel" if i >= n_cases else ("pooled" if ploidy >= 16 else "small")
         chk.count(op); chk.count(f"F={F}"); chk.count(f"freq={kind}"); chk.count(f"ploidy={ploidy}")
-        chk.case(line, nontriv, sample={"request": line[:240], "impl": vecs["jit"], "model": model})
-        case = {"op": op, "haplotypes": haps, "alleles": alleles, "position": k, "inbreeding": F,
-                "frequencies": None if freqs is None else freqs.tolist(), "counts": counts.tolist(),
+        chk.count(f"genotype-dtype={np.dtype(dt)}"); chk.count(f"state-from={origin}"); chk.count(f"shape={shape}")
+        if shape == "panel":
+            chk.count(f"panel:n_haplotypes~{n // 50 * 50}")
+        case = {"op": op, "haplotypes": haps if n <= 12 else f"{n} haplotypes (first 12: {haps[:12]})", "alleles": alleles, "dtype": str(np.dtype(dt)),
+                "position": k, "inbreeding": F, "frequencies": None if freqs is None else freqs.tolist()[:40], "counts": counts.tolist(),
                 "reads": [[[None if math.isnan(x) else x for x in row] for row in rd] for rd in reads.tolist()]}
         if n == 1 and op == "call.mh":
             # a single haplotype: the code divides by n_alleles - 1 = 0; nothing to compare (never sampled: see call.py)
             chk.count("skipped:mh-single-haplotype")
             continue
-        for name in ("jit", "py"):
-            v = vecs[name]
-            if len(v) != len(model) or any(not C.close(x, y, rel=1e-9, abs_=1e-12) for x, y in zip(v, model)):
-                chk.disagreement(f"{op} probabilities ({name}) != model", {**case, "impl": v, "model": model})
-                break
-        # ---------------- oracles on the implementation
-        key = (i,)
+
         def W(al):
             kk = (i, tuple(sorted(al)))
             if kk not in exact_cache:
                 exact_cache[kk] = exact_w(reads, counts, haps, F, freqs, list(al))
             return exact_cache[kk]
+        variants = []
+        for x in range(n):
+            al = list(alleles); al[k] = x
+            variants.append(al)
+        ws = [W(al) / n_perms(al) for al in variants]
+        tot = sum(ws)
+        # states the sampler cannot be in / vectors that are undefined (hard 0/1 reads give zero likelihoods)
+        if op == "call.gibbs" and tot == 0:
+            chk.count("skipped:gibbs-every-option-has-zero-posterior")
+            continue
+        if op == "call.mh" and ws[alleles[k]] == 0:
+            chk.count("skipped:mh-current-state-has-zero-posterior")
+            continue
+        if op == "call.mh" and F == 0 and freqs is not None and any(f0_product_underflows(al, freqs) for al in variants):
+            # numerical range of the implementation: the float64 product of the allele frequencies of one genotype is 0 / denormal
+            chk.count("numeric:F0-frequency-product-underflow(observed, not compared)")
+            continue
+        vecs = {}
+        for name, f in (("jit", fn), ("py", fn.py_func)):
+            g = np.array(alleles, dtype=dt)
+            llks = np.full(n, np.nan); lpriors = np.full(n, np.nan); probs = np.full(n, np.nan)
+            try:
+                f(g, k, harr, reads, counts, F, llks, lpriors, probs, frequencies=freqs, llk_cache=None)
+            except Exception as e:   # noqa: BLE001
+                chk.violation(f"{op} ({name}) raises on a reachable state: {type(e).__name__}: {e}", case, "C02/options/raises")
+                probs[:] = np.nan
+            vecs[name] = probs.tolist()
+            if g.tolist() != alleles:
+                chk.violation(f"{op} does not restore the current allele", {"alleles": alleles, "after": g.tolist()}, "C02/options/restore")
+        chk.case(line, nontriv, sample={"request": line[:240], "impl": vecs["jit"][:12], "model": model[:12]})
+        for name in ("jit", "py"):
+            v = vecs[name]
+            if len(v) != len(model) or any(not C.close(x, y, rel=1e-9, abs_=1e-12) for x, y in zip(v, model)):
+                chk.disagreement(f"{op} probabilities ({name}) != model", {**case, "impl": v[:40], "model": model[:40]})
+                break
+        # ---------------- oracles on the implementation
         v = vecs["jit"]
         if op == "call.gibbs":
-            ws = []
             for x in range(n):
-                al = list(alleles); al[k] = x
-                ws.append(W(al) / n_perms(al))
-            tot = sum(ws)
-            if tot > 0:
-                for x in range(n):
-                    exp = float(ws[x] / tot)
-                    if not C.close(v[x], exp, rel=1e-8, abs_=1e-12):
-                        chk.violation("Gibbs probability is not the exact full conditional of the call-exact posterior",
-                                      {**case, "allele": x, "impl": v[x], "expected": exp}, "C02/gibbs/conditional")
-                        break
+                exp = float(ws[x] / tot)
+                if not C.close(v[x], exp, rel=1e-8, abs_=1e-12):
+                    chk.violation("Gibbs probability is not the exact full conditional of the call-exact posterior",
+                                  {**case, "allele": x, "impl": v[x], "expected": exp}, "C02/gibbs/conditional")
+                    break
         else:
             cur = alleles[k]
-            pio = W(alleles) / n_perms(alleles)
+            pio = ws[cur]
+            back_for = set(range(n)) if n <= 40 else set(r.sample(range(n), 15))
             for x in range(n):
                 if x == cur:
                     continue
-                al = list(alleles); al[k] = x
-                g2 = np.array(al, dtype=np.int64)
-                llks = np.full(n, np.nan); lpriors = np.full(n, np.nan); probs = np.full(n, np.nan)
-                if W(al) == 0:
+                al = variants[x]
+                if ws[x] == 0:
                     if v[x] != 0.0:
                         chk.violation("MH proposes a zero-posterior genotype with positive probability", {**case, "allele": x, "impl": v[x]},
                                       "C02/mh/zero-posterior")
                     continue
+                if x not in back_for:
+                    continue
+                g2 = np.array(al, dtype=dt)
+                llks = np.full(n, np.nan); lpriors = np.full(n, np.nan); probs = np.full(n, np.nan)
                 mcmc.mh_options(g2, k, harr, reads, counts, F, llks, lpriors, probs, frequencies=freqs, llk_cache=None)
                 back = float(probs[cur])
-                fa = float(pio) * v[x]
-                fb = float(W(al) / n_perms(al)) * back
-                if not (fa == fa and fb == fb) or (max(fa, fb) > 1e-250 and abs(fa - fb) > 1e-8 * max(fa, fb)):   # NaN flows fail too
+                # flows relative to the current state's posterior mass (the absolute masses can be far below float64 range)
+                fa = v[x]
+                try:
+                    fb = float(ws[x] / pio) * back
+                except OverflowError:
+                    fb = math.inf if back > 0 else 0.0
+                if not (fa == fa and fb == fb) or (abs(fa - fb) > 1e-8 * max(fa, fb) + 1e-300):   # NaN flows fail too
                     chk.violation("MH move violates detailed balance w.r.t. the call-exact posterior",
-                                  {**case, "allele": x, "pi*K_forward": fa, "pi*K_backward": fb}, "C02/mh/db")
+                                  {**case, "allele": x, "K_forward": fa, "pi'/pi*K_backward": fb}, "C02/mh/db")
                     break
 
+    lap("kernels")
     # ---------------- the same vectors with the sampler's likelihood cache in use (shared across states, high ploidy / many haplotypes)
     from numba import types
     from numba.typed import Dict as NDict
-    n_hi = {"warm": 1, "quick": 4, "thorough": 30}[tier]
+    from mchap.calling.likelihood import log_likelihood_alleles
+    from mchap.jitutils import seed_numba, index_as_genotype_alleles
+    n_hi = {"warm": 2, "quick": 7, "thorough": 42}[tier]
+    HI = [(10, 3, 3), (12, 8, 3), (9, 3, 3), (4, 40, 6), (12, 2, 3), (6, 4, 3), (3, 280, 9)]       # (ploidy, haplotypes, biallelic SNVs)
     for it in range(n_hi):
-        ploidy, n_h = r.choice([(10, 3), (9, 3), (12, 2), (6, 4)])
-        nb = 3
+        ploidy, n_h, nb = HI[(it + 1) % len(HI)] if tier == "warm" else HI[it % len(HI)]
         seen, haps = set(), []
-        for _ in range(60):
+        for _ in range(60 * n_h):
             h = tuple(r.randrange(2) for _ in range(nb))
             if h not in seen:
                 seen.add(h); haps.append(list(h))
@@ -209,6 +273,7 @@ def run(tier, replay=None):
         allowed = [a for a in range(n) if freqs is None or freqs[a] > 0]
         cache = NDict.empty(types.int64, types.float64); cache[-1] = np.nan
         states = [[r.choice(allowed) for _ in range(ploidy)] for _ in range(12)]
+        dt = r.choice([np.int64, np.int32])
         lines, meta = [], []
         toks = call_tokens(reads, counts, haps, F, freqs)
         for st in states:
@@ -219,45 +284,138 @@ def run(tier, replay=None):
         for (st, k, op), a, line in zip(meta, ans, lines):
             model = [float(C.parse_rat(x)) for x in a.split()]
             fn = mcmc.gibbs_options if op == "call.gibbs" else mcmc.mh_options
-            g = np.array(st, dtype=np.int64)
+            g = np.array(st, dtype=dt)
             llks = np.full(n, np.nan); lpriors = np.full(n, np.nan); probs = np.full(n, np.nan)
-            fn(g, k, harr, reads, counts, F, llks, lpriors, probs, frequencies=freqs, llk_cache=cache)
-            chk.count(op + ":cached")
+            chk.count(op + ":cached"); chk.count(f"cached:ploidy={ploidy},haplotypes={n}"); chk.count(f"cached:genotype-dtype={np.dtype(dt)}")
             chk.case(line, True)
+            try:
+                fn(g, k, harr, reads, counts, F, llks, lpriors, probs, frequencies=freqs, llk_cache=cache)
+            except Exception as e:   # noqa: BLE001
+                chk.violation(f"{op} raises with the likelihood cache in use: {type(e).__name__}: {e}",
+                              {"n_haplotypes": n, "alleles": st, "position": k, "inbreeding": F, "dtype": str(np.dtype(dt))}, "C02/options/raises")
+                continue
             if n == 1 and op == "call.mh":
+                continue
+            if op == "call.mh" and F == 0 and freqs is not None and any(
+                    f0_product_underflows(st[:k] + [x] + st[k + 1:], freqs) for x in range(n)):
+                chk.count("numeric:F0-frequency-product-underflow(observed, not compared)")
                 continue
             if any(not C.close(x, y, rel=1e-9, abs_=1e-12) for x, y in zip(probs.tolist(), model)):
                 chk.disagreement(f"{op} probabilities with the likelihood cache in use != model",
                                  {"haplotypes": haps, "alleles": st, "position": k, "inbreeding": F, "impl": probs.tolist(), "model": model})
                 # the property's own oracle: the cached vector must equal the uncached one (which is checked against the exact conditional above)
                 probs2 = np.full(n, np.nan)
-                fn(np.array(st, dtype=np.int64), k, harr, reads, counts, F, np.full(n, np.nan), np.full(n, np.nan), probs2, frequencies=freqs, llk_cache=None)
+                fn(np.array(st, dtype=dt), k, harr, reads, counts, F, np.full(n, np.nan), np.full(n, np.nan), probs2, frequencies=freqs, llk_cache=None)
                 if any(not C.close(x, y, rel=1e-9, abs_=1e-12) for x, y in zip(probs.tolist(), probs2.tolist())):
                     chk.violation("the move distribution of the call sampler changes when its likelihood cache is in use",
                                   {"haplotypes": haps, "alleles": st, "position": k, "with_cache": probs.tolist(), "without": probs2.tolist()},
                                   "C02/options/cache-dependence")
 
-    # ---------------- compound_step: result sorted, returned llk = llk of the final genotype
-    from mchap.calling.likelihood import log_likelihood_alleles
-    n3 = {"warm": 2, "quick": 60, "thorough": 600}[tier]
+    lap("cached-kernels")
+    # ---------------- compound_step: result sorted, returned llk = llk of the final genotype; plain Python without a cache,
+    # and the compiled step (numba RNG seeded with seed_numba) with the sampler's dict cache shared by consecutive steps,
+    # on small and on pooled instances
+    def check_state(g, llk, freqs, harr, reads, counts, what, extra):
+        if g.tolist() != sorted(g.tolist()):
+            chk.violation(f"{what} leaves the genotype unsorted", {"alleles": g.tolist(), **extra}, "C02/compound/sorted")
+        if (g < 0).any() or (g >= len(harr)).any():
+            chk.violation(f"{what} moved to an allele that is not a known haplotype", {"alleles": g.tolist(), **extra}, "C02/compound/range")
+            return
+        if freqs is not None and any(freqs[a] == 0 for a in g):
+            chk.violation(f"{what} moved to an allele with zero prior frequency", {"alleles": g.tolist(), "frequencies": freqs.tolist(), **extra},
+                          "C02/compound/zero-frequency")
+        re = float(log_likelihood_alleles(reads, counts, harr, g))
+        if not C.close_log(llk, re):
+            chk.violation(f"llk returned by {what} is not the llk of the resulting genotype",
+                          {"alleles": g.tolist(), "returned": llk, "recomputed": re, **extra}, "C02/compound/llk")
+
+    n3 = {"warm": 4, "quick": 80, "thorough": 800}[tier]
     for i in range(n3):
-        n_alleles, haps, ploidy, kind, freqs, F, alleles, reads, counts = gen_call_instance(r)
+        mode = ("py-nocache", "jit-nocache", "jit-cache", "jit-cache-pooled")[i % 4]
+        n_alleles, haps, ploidy, kind, freqs, F, alleles, reads, counts = \
+            gen_call_instance(r, max_haps=8, pooled=True) if mode == "jit-cache-pooled" else gen_call_instance(r)
         if len(haps) < 2:
             continue
         harr = np.array(haps, dtype=np.int8)
+        dt = r.choice([np.int64, np.int32])
+        start = np.array(sorted(alleles), dtype=dt)
+        l0 = float(log_likelihood_alleles(reads, counts, harr, start))
+        if not math.isfinite(l0):
+            chk.count("compound_step:skipped-start-state-has-zero-likelihood")
+            continue
+        if F == 0 and f0_product_underflows(alleles, freqs):
+            chk.count("numeric:F0-frequency-product-underflow(observed, not compared)")
+            continue
         for st in (0, 1):
-            g = np.array(sorted(alleles), dtype=np.int64)
-            np.random.seed(r.randrange(2 ** 31));
-            llk = float(mcmc.compound_step.py_func(g, harr, reads, counts, F, frequencies=freqs, llk_cache=None, step_type=st))
-            chk.count("compound_step")
-            chk.case(("compound", i, st), True)
-            if g.tolist() != sorted(g.tolist()):
-                chk.violation("compound_step leaves the genotype unsorted", {"alleles": g.tolist()}, "C02/compound/sorted")
-            if freqs is not None and any(freqs[a] == 0 for a in g):
-                chk.violation("compound_step moved to an allele with zero prior frequency", {"alleles": g.tolist(), "frequencies": freqs.tolist()},
-                              "C02/compound/zero-frequency")
-            re = float(log_likelihood_alleles(reads, counts, harr, g))
-            if not C.close_log(llk, re):
-                chk.violation("llk returned by compound_step is not the llk of the resulting genotype",
-                              {"alleles": g.tolist(), "returned": llk, "recomputed": re, "step_type": st}, "C02/compound/llk")
+            g = start.copy()
+            extra = {"mode": mode, "step_type": st, "start": start.tolist(), "dtype": str(np.dtype(dt)), "ploidy": ploidy, "n_haplotypes": len(haps)}
+            cache = None
+            if mode.startswith("jit-cache"):
+                cache = NDict.empty(types.int64, types.float64); cache[-1] = np.nan
+            n_steps = 1 if mode == "py-nocache" else 3
+            for step in range(n_steps):
+                sd = r.randrange(2 ** 31)
+                try:
+                    if mode == "py-nocache":
+                        np.random.seed(sd)
+                        llk = float(mcmc.compound_step.py_func(g, harr, reads, counts, F, frequencies=freqs, llk_cache=None, step_type=st))
+                    else:
+                        seed_numba(sd)
+                        llk = float(mcmc.compound_step(g, harr, reads, counts, F, frequencies=freqs, llk_cache=cache, step_type=st))
+                except Exception as e:   # noqa: BLE001
+                    chk.violation(f"compound_step raises from a reachable state: {type(e).__name__}: {e}", {**extra, "seed": sd}, "C02/compound/raises")
+                    break
+                chk.count(f"compound_step:{mode}")
+                chk.case(("compound", i, st, step), True)
+                check_state(g, llk, freqs, harr, reads, counts, "compound_step", {**extra, "seed": sd})
+            if cache is not None:
+                # what the steps left in the shared cache: every entry is the likelihood of the genotype its key denotes
+                bad = None
+                for key, val in cache.items():
+                    if key < 0:
+                        continue
+                    ga = index_as_genotype_alleles(key, ploidy)
+                    if (ga >= len(haps)).any() or not C.close_log(float(val), float(log_likelihood_alleles(reads, counts, harr, ga))):
+                        bad = (int(key), ga.tolist(), float(val))
+                        break
+                chk.count("compound_step:cache-entries-checked", max(0, len(cache) - 1))
+                if bad is not None:
+                    chk.violation("the call sampler's likelihood cache holds a value that is not the likelihood of the genotype of its key",
+                                  {**extra, "key": bad[0], "genotype_of_key": bad[1], "cached": bad[2]}, "C02/compound/cache-entry")
+
+    lap("compound_step")
+    # ---------------- mcmc_sampler as CallingMCMC.fit runs it: initial state from greedy_caller (int32), cache on, a short trace;
+    # every recorded state is sorted, within the panel, of positive prior, and its recorded llk is its likelihood
+    n4 = {"warm": 1, "quick": 16, "thorough": 160}[tier]
+    for i in range(n4):
+        n_alleles, haps, ploidy, kind, freqs, F, alleles, reads, counts = \
+            gen_call_instance(r, max_haps=8, pooled=(i % 4 == 3), panel=(i % 4 == 1), styles=("encoded", "free"))
+        if len(haps) < 2:
+            continue
+        harr = np.array(haps, dtype=np.int8)
+        try:
+            init = mcmc.greedy_caller(harr, ploidy, reads, counts, F, freqs)
+        except Exception as e:   # noqa: BLE001
+            chk.violation(f"greedy_caller raises on a valid input: {type(e).__name__}: {e}", {"haplotypes": haps, "ploidy": ploidy}, "C02/greedy/raises")
+            continue
+        if (init < 0).any() or (F == 0 and f0_product_underflows(init.tolist(), freqs)):
+            chk.count("mcmc_sampler:skipped")
+            continue
+        st = i % 2
+        sd = r.randrange(2 ** 31)
+        seed_numba(sd)
+        extra = {"ploidy": ploidy, "n_haplotypes": len(haps), "initial": init.tolist(), "step_type": st, "seed": sd, "inbreeding": F}
+        try:
+            gt, lt = mcmc.mcmc_sampler(init, harr, reads, counts, F, frequencies=freqs, n_steps=12, cache=bool(i % 3), step_type=st)
+        except Exception as e:   # noqa: BLE001
+            chk.violation(f"mcmc_sampler raises: {type(e).__name__}: {e}", extra, "C02/sampler/raises")
+            continue
+        chk.count("mcmc_sampler:" + ("cache" if i % 3 else "nocache")); chk.count(f"mcmc_sampler:initial-dtype={init.dtype}")
+        chk.case(("sampler", i), True)
+        if gt.shape != (12, ploidy) or lt.shape != (12,):
+            chk.violation("mcmc_sampler trace has the wrong shape", {**extra, "shape": list(gt.shape)}, "C02/sampler/shape")
+            continue
+        for row, llk in zip(gt, lt):
+            check_state(row, float(llk), freqs, harr, reads, counts, "mcmc_sampler (trace row)", extra)
+    lap("mcmc_sampler")
     return chk.finish()
